@@ -32,6 +32,12 @@ def mutate_expectation(case):
     anything at all must reject the case."""
     c = json.loads(json.dumps(case))
     e = c.get("expect", {})
+    if e.get("anyoutcome"):
+        # nothing is compared in such cases except "no panic / no hang / engine usable": simulate a panic
+        cfg = dict(c.get("cfg") or {})
+        cfg["selfpanic"] = True
+        c["cfg"] = cfg
+        return c
     if e.get("ok", True):
         e["out"] = list(e.get("out") or []) + [90, 90, 81]
         e["noout"] = False
